@@ -67,7 +67,7 @@ func runStream(rd io.Reader, reuseMode int, r *Rng) streamOutcome {
 	simdjson.ParseNDStream(rd, res, reuse)
 	var out streamOutcome
 	var sb strings.Builder
-	deadline := time.After(30 * time.Second)
+	deadline := time.After(180 * time.Second)
 	for {
 		select {
 		case v, ok := <-res:
@@ -196,7 +196,7 @@ func checkC09(c *Ctx) {
 		c.Ev.Count(map[bool]string{true: "reader-failure", false: "clean"}[j.fail >= 0], []byte(fmt.Sprint(j.sizes, j.fail, string(j.stream))), j.out.nvalues >= 2)
 		c.Ev.Dist(fmt.Sprintf("values:%d", minInt(j.out.nvalues, 10)))
 		if j.out.timeout {
-			c.Violate("stream", "ParseNDStream did not finish (no close within 30 s)", "stream-hang", info)
+			c.Violate("stream", "ParseNDStream did not finish (no close within 180 s)", "stream-hang", info)
 			continue
 		}
 		if !j.out.closed {
